@@ -5,9 +5,18 @@ cd /verif
 # with VERIF_SEED set the results go to seeded/RESULTS.seed<k>.txt and meta.json is left alone (robustness sweeps)
 R=seeded/RESULTS${VERIF_SEED:+.seed$VERIF_SEED}.txt
 export R
-: > $R
+# SELFTEST_ONLY="C02 C07": only the changes (and reverse-fix mutants) of these properties are re-run; their lines
+# replace the old ones in the results file, everything else is kept
+if [ -n "$SELFTEST_ONLY" ]; then
+  pat=$(echo $SELFTEST_ONLY | tr ' ' '|')
+  grep -vE "^SELFTEST ($pat) " $R > $R.keep 2>/dev/null; mv $R.keep $R
+else
+  : > $R
+fi
+only() { [ -z "$SELFTEST_ONLY" ] || echo " $SELFTEST_ONLY " | grep -q " $1 "; }
 for d in seeded/C*/; do
   id=$(basename $d); prop=${id%%-*}
+  only $prop || continue
   pf=/verif/$d/patch.diff
   [ -f /verif/$d/patch_current.diff ] && pf=/verif/$d/patch_current.diff   # ported onto the fix commits when the original no longer applies
   line=$(./drv/selftest.sh $pf $prop | head -1)
@@ -30,6 +39,7 @@ PY
 done
 for p in mutants/*.diff; do
   prop=$(basename $p | sed -E 's/^unfix-[A-Z0-9]+-(C[0-9]+).*/\1/')
+  only $prop || continue
   line=$(./drv/selftest.sh /verif/$p $prop | head -1)
   echo "$line" >> $R
 done
